@@ -696,3 +696,240 @@ class GenFn(Gen):
     def program(self):
         out = super().program()
         return out
+
+
+# =================================================================================================
+# match profile (C03): pattern matching and unpacking
+# =================================================================================================
+class GenMatch(Gen):
+    """Adds match expressions (literals, ids, wildcards, typed patterns, nested tuple patterns with leading/trailing
+    rest, map patterns with `as`, `or` alternatives, guards, multi-subject matches) and unpacking assignments / for
+    arguments over every iterable shape. Shape guards: SG-A2 (pattern names are fresh), SG-A4 (ellipsis patterns only
+    against containers), SG-A5 (nested tuple patterns only in the last alternative), SG-A7 (map patterns only against
+    maps, numbers, strings)."""
+    def subject(self, sc, d):
+        """Returns (expr, shape) - shape describes the value so that patterns can be aimed at it."""
+        r = self.rng.random()
+        if r < 0.25:
+            v = self.rng.randint(-2, 5)
+            return ("int", v), ("int", v)
+        if r < 0.32:
+            w = self.pick(["a", "b", "koto", ""])
+            return ("str", [w]), ("str", w)
+        if r < 0.38:
+            return self.pick([(("null",), ("null",)), (("bool", True), ("bool", True)), (("bool", False), ("bool", False)), (("float", 1.5), ("float", 1.5))])
+        if r < 0.75:
+            n = self.rng.randint(0, 4)
+            items, shapes = [], []
+            for _ in range(n):
+                if self.chance(0.2) and d < 2:
+                    e, sh = self.subject(sc, d + 1)
+                else:
+                    v = self.rng.randint(0, 4); e, sh = ("int", v), ("int", v)
+                items.append(e); shapes.append(sh)
+            kind = "tuple" if self.chance(0.6) else "list"
+            return (kind, items), (kind, shapes)
+        keys = self.rng.sample(["a", "b", "c"], self.rng.randint(0, 3))
+        vals = [self.rng.randint(0, 4) for _ in keys]
+        return ("map", [(k, ("int", v)) for k, v in zip(keys, vals)]), ("map", dict(zip(keys, vals)))
+
+    def pattern_for(self, shape, names, d=0, aim=True, allow_nested=True):
+        """A pattern aimed at the shape (aim=True: likely to match; False: a random one)."""
+        r = self.rng.random()
+        k = shape[0]
+        if r < 0.12:
+            n = self.fresh("p"); names.append((n, self.kind_of_shape(shape))); return ("var", n)
+        if r < 0.18: return ("ignore",)
+        if r < 0.28:
+            hint = {"int": "Number", "float": "Number", "str": "String", "null": "Null", "bool": "Bool", "tuple": "Tuple", "list": "List", "map": "Map"}[k]
+            if not aim: hint = self.pick(["Number", "String", "Tuple", "List", "Map", "Bool", "Null", "Indexable", "Iterable"])
+            if self.chance(0.5):
+                n = self.fresh("p"); names.append((n, self.kind_of_shape(shape))); return ("var", n, hint)
+            return ("ignore", hint)
+        if k in ("int", "str", "null", "bool", "float"):
+            if aim or self.chance(0.3):
+                return ("plit", {"int": lambda: ("int", shape[1]), "str": lambda: ("str", [shape[1]]), "null": lambda: ("null",), "bool": lambda: ("bool", shape[1]), "float": lambda: ("float", shape[1])}[k]())
+            return ("plit", self.pick([("int", self.rng.randint(-2, 5)), ("str", [self.pick(["a", "b"])]), ("null",), ("bool", True)]))
+        if k in ("tuple", "list"):
+            items = shape[1]
+            if not allow_nested:
+                n = self.fresh("p"); names.append((n, k)); return ("var", n)
+            n_items = len(items)
+            mode = self.rng.random()
+            if mode < 0.55:
+                size = n_items if (aim or self.chance(0.5)) else self.rng.randint(0, 4)
+                if size == 0:
+                    # SG-A8: `()` as a pattern matches null, not the empty tuple - use (...) for "any sequence" instead
+                    return ("tpat", [("rest", None)])
+                pats = []
+                for i in range(size):
+                    sh = items[i] if i < n_items else ("int", 0)
+                    pats.append(self.pattern_for(sh, names, d + 1, aim and self.chance(0.85), allow_nested=d < 1))
+                return ("tpat", pats)
+            keep = self.rng.randint(0, min(2, n_items)) if aim else self.rng.randint(0, 3)
+            restname = None
+            if self.chance(0.6):
+                restname = self.fresh("p"); names.append((restname, k))
+            if self.chance(0.5):
+                pats = [self.pattern_for(items[i] if i < n_items else ("int", 0), names, d + 1, aim, allow_nested=d < 1) for i in range(keep)] + [("rest", restname)]
+            else:
+                pats = [("rest", restname)] + [self.pattern_for(items[n_items - keep + i] if 0 <= n_items - keep + i < n_items else ("int", 0), names, d + 1, aim, allow_nested=d < 1) for i in range(keep)]
+            return ("tpat", pats)
+        if k == "map":
+            keys = list(shape[1].keys())
+            chosen = self.rng.sample(keys, self.rng.randint(0, len(keys))) if keys else []
+            if not aim and self.chance(0.6):
+                chosen = chosen + [self.pick(["a", "b", "c", "zz"])]
+            chosen = list(dict.fromkeys(chosen))
+            if not chosen:
+                chosen = [self.pick(["a", "zz"])] if not aim else (keys[:1] or ["zz"])
+            entries = []
+            for key in chosen:
+                n = self.fresh("p"); names.append((n, "opaque")); entries.append((key, n))
+            return ("mpat", entries)
+        return ("ignore",)
+
+    def kind_of_shape(self, shape):
+        return {"int": "int", "float": "float", "str": "str", "null": "null", "bool": "bool", "tuple": "tuple", "list": "list", "map": "map"}[shape[0]]
+
+    def shape_ok_for(self, pat, shape):
+        """Shape guards SG-A4 / SG-A7 and the pinned sequence matching of strings/maps."""
+        k = pat[0]
+        if k == "tpat":
+            if shape[0] not in ("tuple", "list"):
+                # non-ellipsis tuple patterns fall through for scalars; strings / maps match element-wise (pinned) - avoided
+                if any(x[0] == "rest" for x in pat[1]): return False
+                if shape[0] in ("str", "map"): return False
+                return True
+            n = len(shape[1])
+            pats = pat[1]
+            rest_at = [i for i, x in enumerate(pats) if x[0] == "rest"]
+            if rest_at:
+                r = rest_at[0]
+                before, after = pats[:r], pats[r + 1:]
+                for q, sh in zip(before, shape[1]):
+                    if not self.shape_ok_for(q, sh): return False
+                for q, sh in zip(after, shape[1][max(0, n - len(after)):]):
+                    if not self.shape_ok_for(q, sh): return False
+                return True
+            return all(self.shape_ok_for(q, sh) for q, sh in zip(pats, shape[1]))
+        if k == "mpat":
+            return shape[0] in ("map", "int", "float", "str")
+        return True
+
+    def match_expr(self, sc, d):
+        n_subj = 1 if self.chance(0.8) else 2
+        subj = [self.subject(sc, d) for _ in range(n_subj)]
+        arms = []
+        body_kind = self.pick(["int", "str"])
+        for a in range(self.rng.randint(1, 4)):
+            alts = []
+            names_all = None
+            n_alts = 1 if self.chance(0.7) else self.rng.randint(2, 3)
+            for ai in range(n_alts):
+                last_alt = ai == n_alts - 1
+                names = []
+                alt = []
+                ok = True
+                for (e, sh) in subj:
+                    # SG-A5: nested tuple patterns only in the last alternative; with several alternatives no bindings
+                    p = self.pattern_for(sh, names, 0, aim=self.chance(0.55), allow_nested=last_alt)
+                    if not self.shape_ok_for(p, sh): ok = False
+                    alt.append(p)
+                if not ok:
+                    continue
+                if n_alts > 1 and names:
+                    alt = [self.strip_names(p) for p in alt]
+                    names = []
+                alts.append(alt)
+                names_all = names
+            if not alts:
+                continue
+            inner = Scope(sc); inner.vars = dict(sc.vars)
+            if len(alts) == 1:
+                for nm, kd in names_all or []:
+                    inner.vars[nm] = Var(nm, kd if kd in KINDS else "opaque", protected=True)
+            guard = None
+            if self.chance(0.25):
+                guard = self.expr("bool", inner, d + 2)
+            body = []
+            binds = [v for v in inner.vars.values() if v.name.startswith("p") and v.name not in sc.vars]
+            if binds:
+                body.append(("print", [("var", v.name) for v in binds[:3]]))
+            body.append(self.maybe_trace(self.expr(body_kind, inner, d + 2)))
+            arms.append((alts, guard, body))
+        if self.chance(0.5) or not arms:
+            arms.append((None, None, [self.expr(body_kind, sc, d + 2)]))
+        self.trace_id += 1
+        subjects = [("trace", self.trace_id + i * 1000, e) for i, (e, sh) in enumerate(subj)]
+        return ("match", subjects, arms)
+
+    def strip_names(self, p):
+        k = p[0]
+        if k == "var": return ("ignore", p[2]) if len(p) > 2 and p[2] else ("ignore",)
+        if k == "tpat": return ("tpat", [self.strip_names(x) for x in p[1]])
+        if k == "rest": return ("rest", None)
+        if k == "mpat": return ("ignore",)
+        return p
+
+    def unpack_stmt(self, sc, d):
+        """a, b, c = V  /  for a, b in Vs  over every iterable shape (too short, too long, generators excluded here)."""
+        n_t = self.rng.randint(2, 3)
+        targets = []
+        names = []
+        for _ in range(n_t):
+            if self.chance(0.15):
+                targets.append(("ignore",))
+            else:
+                n = self.fresh("u"); names.append(n); targets.append(("var", n))
+        def source():
+            r = self.rng.random()
+            k = self.rng.randint(0, 4)
+            items = [("int", self.rng.randint(0, 9)) for _ in range(k)]
+            if r < 0.3: return ("tuple", items)
+            if r < 0.55: return ("list", items)
+            if r < 0.7: return ("range", ("int", 0), ("int", k), False)
+            if r < 0.8: return ("str", [self.pick(["xy", "abc", "é日", "q", ""])])
+            if r < 0.9: return ("map", [(key, ("int", i)) for i, key in enumerate(self.rng.sample(["a", "b", "c"], min(k, 3)))])
+            return ("bare", items[:max(2, k)] if len(items) >= 2 else [("int", 1), ("int", 2)])
+        out = []
+        if self.chance(0.6):
+            src = source()
+            if src[0] == "bare":
+                e = ("tuple", src[1], "bare")
+            else:
+                e = src
+            out.append(("multi", targets, e))
+            for n in names:
+                sc.vars[n] = Var(n, "opaque", protected=True)
+            out.append(("print", [("var", n) for n in names] or [("int", 0)]))
+        else:
+            rows = []
+            for _ in range(self.rng.randint(0, 3)):
+                s = source()
+                if s[0] in ("bare", "range"):
+                    s = ("tuple", s[1] if s[0] == "bare" else [("int", 1)])
+                rows.append(s)
+            inner = Scope(sc); inner.vars = dict(sc.vars)
+            for n in names:
+                inner.vars[n] = Var(n, "opaque", protected=True)
+            self.loop_depth += 1; self.loop_value_used.append(False)
+            try:
+                body = [("print", [("var", n) for n in names] or [("int", 0)])]
+            finally:
+                self.loop_depth -= 1; self.loop_value_used.pop()
+            out.append(("for", targets, ("list", rows) if self.chance(0.5) else ("tuple", rows), body))
+        return out
+
+    def stmt(self, sc, d):
+        r = self.rng.random()
+        if r < 0.35 and d <= 2:
+            m = self.match_expr(sc, d)
+            if self.chance(0.5):
+                name = self.fresh()
+                sc.vars[name] = Var(name, "opaque", protected=True)
+                return [("assign", ("var", name), m), ("print", [("var", name)])]
+            return [m]
+        if r < 0.5:
+            return self.unpack_stmt(sc, d)
+        return super().stmt(sc, d)
